@@ -47,7 +47,6 @@ static Verdict runCase(const EncCase& c, Info& info)
                 break;  // padding starts here (zero bytes), verified below
             VF_CHECK(o + wire::kMsgHeader + h.length <= f.size(),
                      "frame " << fi << " message " << nMsg << " declares " << h.length << " bytes but only " << (f.size() - o - 16) << " remain");
-            VF_CHECK(!(h.flags & wire::kFlagError), "frame " << fi << " message " << nMsg << " has the error flag");
             const uint8_t* chunk = f.data() + o + wire::kMsgHeader;
             // byte accounting
             VF_CHECK(pkt < payloads.size(), "frame " << fi << " carries a message beyond the last packet");
@@ -98,6 +97,12 @@ static Verdict runCase(const EncCase& c, Info& info)
         info.tag("length_near_fit_boundary");
     if (anyPadded)
         info.tag("padded_to_min");
+    for (const auto& r : c.packets)
+        if (r.flags & 0x40)
+        {
+            info.tag("batch_with_error_in_payload_flagged_packet");
+            break;
+        }
     info.nontrivial = k.segmented || k.aggregated || k.mixedTypes || k.nearBoundary || anyPadded;
     info.count("packets", c.packets.size());
     info.count("frames", frames.size());
@@ -112,6 +117,7 @@ int main(int argc, char** argv)
         EncGenParams p;
         p.maxBatch = tier ? 40 : 12;
         p.allowEmpty = true;
+        p.allowErrorFlag = true;
         return withPriorCalls(genEncCase(p), p);
     };
     prop.run = runCase;
